@@ -476,6 +476,7 @@ static void worker_loop (void) {
 		if (!strcmp (t[0], "maps")) { maps (); continue; }
 		if (!strcmp (t[0], "drain") && n == 2) { drain (t[1]); continue; }
 		if (!strcmp (t[0], "null") && n == 1) { null_guards (); continue; }
+		if (!strcmp (t[0], "close0") && n == 1) { close (0); emit ("R ok\n"); continue; }   /* a daemon-like process: descriptor 0 is free, the next open gets it */
 		if (!strcmp (t[0], "crash") && n > 2) { crash_at = atoi (t[1]); op += 2; on -= 2; }
 		else if (!strcmp (t[0], "crashA") && n > 2) { crash_after = atoi (t[1]); op += 2; on -= 2; }
 		else if (!strcmp (t[0], "gated") && n > 1) { gated = 1; op += 1; on -= 1; }
@@ -871,6 +872,12 @@ int main (int argc, char **argv) {
 			int w = atoi (t[0]);
 			if (t[0][0] < '0' || t[0][0] > '9' || w >= NW || n < 2) puts ("bad-op");
 			else if (!strcmp (t[1], "kill") && n == 2) { respawn (w); puts ("ok"); }
+			else if (!strcmp (t[1], "close0") && n == 2) {
+				char trace[64] = "", res[LINE] = "";
+				send_cmd (&W[w], "close0");
+				if (collect (&W[w], "", trace, sizeof trace, res, sizeof res) == 'R') puts ("ok");
+				else { puts ("died"); respawn (w); }
+			}
 			else if (!strcmp (t[1], "null") && n == 2) {
 				char trace[64] = "", res[LINE] = "";
 				send_cmd (&W[w], "null");
